@@ -589,8 +589,8 @@ Lemma dimension_tiles_survive_dir_refuted :
     spec_removed (older_dir (t_T t)) (t_levels t) (t_all t) everywhere msize e = true /\
     In e (cleanup_task (BFile lay) q msize t walked c).
 Proof.
-  exists LTc, 4, m22, (mkTask [1] 560 false true false), [], [mkEntry (PTile 1 1 0 1) 120 false],
-         (mkEntry (PTile 1 1 0 1) 120 false).
+  exists LTc, 4, m22, (mkTask [1] 560 false true false), [], [mkEntry (PTile 1 1 0 1) 120 false None],
+         (mkEntry (PTile 1 1 0 1) 120 false None).
   repeat split; try reflexivity; left; reflexivity.
 Qed.
 
@@ -604,7 +604,7 @@ Lemma dimension_tiles_survive_walk_refuted :
     In e (cleanup_task (BFile lay) q msize t walked c).
 Proof.
   exists LMp, 4, m22, (mkTask [1] 560 false false false), [(0, 0, 1)], everywhere,
-         [mkEntry (PTile 1 1 0 1) 120 false], (mkEntry (PTile 1 1 0 1) 120 false).
+         [mkEntry (PTile 1 1 0 1) 120 false None], (mkEntry (PTile 1 1 0 1) 120 false None).
   repeat split; try reflexivity; try (left; reflexivity).
   intros e dim l x y [<-|[]] P. inversion P; subst. reflexivity.
 Qed.
@@ -612,17 +612,17 @@ Qed.
 (* ------------------------------------------------------------------ non-vacuity *)
 
 Definition ex_c : list entry :=
-  [ mkEntry (PTile 0 1 0 1) 150 false;    (* level 1, older *)
-    mkEntry (PTile 0 1 1 1) 170 false;    (* level 1, newer *)
-    mkEntry (PTile 0 2 3 0) 100 false;    (* level 2 *)
-    mkEntry (PInDir 0 (DPad 1)) 100 true; (* empty directory inside 01 *)
-    mkEntry POutside 100 false ].
+  [ mkEntry (PTile 0 1 0 1) 150 false None;    (* level 1, older *)
+    mkEntry (PTile 0 1 1 1) 170 false None;    (* level 1, newer *)
+    mkEntry (PTile 0 2 3 0) 100 false None;    (* level 2 *)
+    mkEntry (PInDir 0 (DPad 1)) 100 true None; (* empty directory inside 01 *)
+    mkEntry POutside 100 false None ].
 
 Example ex_dir_remaining :
   strategy (BFile LTc) (mkTask [1] 160 false true false) = SDir /\
   (forall e, In e ex_c -> is_tile e = true -> dim_visible (BFile LTc) e = true) /\
   cleanup_task (BFile LTc) 4 m22 (mkTask [1] 160 false true false) [] ex_c
-  = [mkEntry (PTile 0 1 1 1) 170 false; mkEntry (PTile 0 2 3 0) 100 false; mkEntry POutside 100 false].
+  = [mkEntry (PTile 0 1 1 1) 170 false None; mkEntry (PTile 0 2 3 0) 100 false None; mkEntry POutside 100 false None].
 Proof.
   split; [reflexivity|]. split; [|reflexivity].
   intros e [<-|[<-|[<-|[<-|[<-|[]]]]]] Ht; try discriminate; reflexivity.
@@ -631,21 +631,21 @@ Qed.
 Example ex_cache_remaining :
   strategy BSqlite (mkTask [1] 160 false true false) = SCache /\ stores_timestamp BSqlite = true /\
   cleanup_task BSqlite 4 m22 (mkTask [1] 163 false true false) []
-    [mkEntry (PTile 0 1 0 1) 156 false; mkEntry (PTile 0 1 1 1) 160 false; mkEntry (PTile 0 2 0 0) 100 false; mkEntry (PBeside 1) 100 false]
-  = [mkEntry (PTile 0 1 1 1) 160 false; mkEntry (PTile 0 2 0 0) 100 false; mkEntry (PBeside 1) 100 false].
+    [mkEntry (PTile 0 1 0 1) 156 false None; mkEntry (PTile 0 1 1 1) 160 false None; mkEntry (PTile 0 2 0 0) 100 false None; mkEntry (PBeside 1) 100 false None]
+  = [mkEntry (PTile 0 1 1 1) 160 false None; mkEntry (PTile 0 2 0 0) 100 false None; mkEntry (PBeside 1) 100 false None].
 Proof. repeat split; reflexivity. Qed.
 
 Example ex_walk_remaining :
   let t := mkTask [1] 160 false false false in
-  let cov := cov_of (mkPyr 0 0 [1024; 512; 256] [(1, 1); (2, 2); (4, 4)] (1, 1)) (0, 0, 512, 1024) in
-  let c := [mkEntry (PTile 0 1 0 1) 150 false; mkEntry (PTile 0 1 1 1) 150 false; mkEntry (PTile 0 1 0 0) 170 false] in
+  let cov := cov_of (mkPyr 0 0 [1024; 512; 256] [(1, 1); (2, 2); (4, 4)] (1, 1)) [(0, 0, 512, 1024)] in
+  let c := [mkEntry (PTile 0 1 0 1) 150 false None; mkEntry (PTile 0 1 1 1) 150 false None; mkEntry (PTile 0 1 0 0) 170 false None] in
   let walked := [(0, 1, 1); (0, 0, 1)] in
   strategy (BFile LQuadkey) t = SWalk /\
   (forall e dim l x y, In e c -> e_place e = PTile dim l x y ->
      mem_coord (main_tile (fun _ => (1, 1)) (x, y, l)) walked = memZ l (t_levels t) && cov (main_tile (fun _ => (1, 1)) (x, y, l))) /\
   (forall mt, In mt walked -> cov mt = true /\ In (coord_level mt) (t_levels t)) /\
   cleanup_task (BFile LQuadkey) 4 (fun _ => (1, 1)) t walked c
-  = [mkEntry (PTile 0 1 1 1) 150 false; mkEntry (PTile 0 1 0 0) 170 false].
+  = [mkEntry (PTile 0 1 1 1) 150 false None; mkEntry (PTile 0 1 0 0) 170 false None].
 Proof.
   cbv zeta. split; [reflexivity|]. split; [|split; [|reflexivity]].
   - intros e dim l x y [<-|[<-|[<-|[]]]] P; inversion P; subst; reflexivity.
@@ -664,9 +664,9 @@ Proof. repeat split; reflexivity. Qed.
 (* tms layout: level 1 lives in "1", which is the directory that is cleaned; a foreign directory "01" is not *)
 Example ex_tms_low_level :
   cleanup_task (BFile LTms) 4 m22 (mkTask [1; 10] 160 false true false) []
-    [mkEntry (PTile 0 1 1 0) 120 false; mkEntry (PTile 0 10 5 7) 120 false; mkEntry (PTile 0 10 5 8) 164 false;
-     mkEntry (PInDir 0 (DPad 1)) 120 false]
-  = [mkEntry (PTile 0 10 5 8) 164 false; mkEntry (PInDir 0 (DPad 1)) 120 false].
+    [mkEntry (PTile 0 1 1 0) 120 false None; mkEntry (PTile 0 10 5 7) 120 false None; mkEntry (PTile 0 10 5 8) 164 false None;
+     mkEntry (PInDir 0 (DPad 1)) 120 false None]
+  = [mkEntry (PTile 0 10 5 8) 164 false None; mkEntry (PInDir 0 (DPad 1)) 120 false None].
 Proof. reflexivity. Qed.
 
 (* per-level geopackage: remove_before is refused; without it everything of the selected levels goes *)
@@ -674,7 +674,7 @@ Example ex_gpkglevel :
   conf_tasks 1000 (WBefore 77) (conf_all (WBefore 77)) [BGpkgLevel] = [None] /\
   conf_tasks 1000 WDefault (conf_all WDefault) [BGpkgLevel] = [Some (1000, true)] /\
   cleanup_task BGpkgLevel 4 m22 (mkTask [2] 1000 true true false) []
-    [mkEntry (PTile 0 2 1 1) 120 false; mkEntry (PTile 0 1 1 1) 120 false] = [mkEntry (PTile 0 1 1 1) 120 false].
+    [mkEntry (PTile 0 2 1 1) 120 false None; mkEntry (PTile 0 1 1 1) 120 false None] = [mkEntry (PTile 0 1 1 1) 120 false None].
 Proof. repeat split; reflexivity. Qed.
 
 (* remove_all of a cache without timestamps does not reach the cache after it *)
@@ -727,7 +727,153 @@ Qed.
 
 Example ex_safety :
   let t := mkTask [1] 160 false true false in
-  In (mkEntry (PTile 0 1 1 1) 170 false) ex_c /\ t_T t < (170 / 4) * 4 /\
-  In (mkEntry POutside 100 false) ex_c /\ inside_selected (BFile LTc) (t_levels t) (mkEntry POutside 100 false) = false /\
-  inside_selected (BFile LTc) (t_levels t) (mkEntry (PInDir 0 (DPad 1)) 100 true) = true.
+  In (mkEntry (PTile 0 1 1 1) 170 false None) ex_c /\ t_T t < (170 / 4) * 4 /\
+  In (mkEntry POutside 100 false None) ex_c /\ inside_selected (BFile LTc) (t_levels t) (mkEntry POutside 100 false None) = false /\
+  inside_selected (BFile LTc) (t_levels t) (mkEntry (PInDir 0 (DPad 1)) 100 true None) = true.
 Proof. cbv zeta. repeat split; try reflexivity; cbn; auto 10. Qed.
+
+(* ------------------------------------------------------------------ interrupted and continued directory cleanup *)
+
+Definition simple_removes_from (b : backend) (t : task) (old : option dname) (l : Z) (e : entry) : bool :=
+  match b with
+  | BFile lay => match level_dir lay l with
+                 | Some d => negb (can_skip old d) && dir_removes b d (t_T t) (t_all t) e
+                 | None => false
+                 end
+  | _ => false
+  end.
+
+Lemma simple_cleanup_from_filter b t old c :
+  simple_cleanup_from b t old c
+  = filter (fun e => negb (existsb (fun l => simple_removes_from b t old l e) (t_levels t))) c.
+Proof.
+  rewrite <- fold_filter. unfold simple_cleanup_from.
+  generalize (t_levels t) as ls. intros ls; revert c.
+  induction ls as [|l ls IH]; intros c; cbn [fold_left]; [reflexivity|].
+  rewrite <- IH. f_equal.
+  unfold simple_removes_from, cleanup_directory. destruct b; try (symmetry; apply filter_true).
+  destruct (level_dir lay l); [| symmetry; apply filter_true].
+  destruct (can_skip old d); cbn [negb andb]; [symmetry; apply filter_true | reflexivity].
+Qed.
+
+Lemma In_firstn_nth {A} (l : list A) (k j : nat) (x : A) :
+  (j < k)%nat -> nth_error l j = Some x -> In x (firstn k l).
+Proof.
+  revert k j; induction l as [|a l IH]; intros k j Hj H; [destruct j; discriminate|].
+  destruct k as [|k]; [lia|]. cbn [firstn]. destruct j as [|j]; cbn in H.
+  - inversion H; left; reflexivity.
+  - right. apply (IH k j); [lia | exact H].
+Qed.
+
+Lemma In_firstn_In {A} (l : list A) (k : nat) (x : A) : In x (firstn k l) -> In x l.
+Proof.
+  revert k; induction l as [|a l IH]; intros k H; [destruct k; exact H|].
+  destruct k as [|k]; [destruct H|]. cbn [firstn] in H. destruct H as [H|H]; [left; exact H | right; apply (IH k H)].
+Qed.
+
+Lemma key_ltb_irrefl a : key_ltb a a = false.
+Proof. unfold key_ltb. rewrite !Z.ltb_irrefl, andb_false_r. reflexivity. Qed.
+
+(* A cleanup of a file cache that dies while it handles the k-th level directory (an arbitrary part of that
+   directory already removed) and is continued from the progress store leaves exactly what an uninterrupted
+   cleanup leaves - provided the names of the level directories at and after position k do not sort before the
+   name of the k-th (the order DirectoryCleanupProgress.can_skip relies on). *)
+Lemma resume_covers_l lay t k keep c lk dk :
+  nth_error (t_levels t) k = Some lk -> level_dir lay lk = Some dk ->
+  (forall j lj dj, (k <= j)%nat -> nth_error (t_levels t) j = Some lj -> level_dir lay lj = Some dj ->
+     key_ltb (dname_key dj) (dname_key dk) = false) ->
+  resumed (BFile lay) t k keep c = simple_cleanup (BFile lay) t c.
+Proof.
+  intros Hk Hd Hord. unfold resumed, interrupted. rewrite Hk, Hd.
+  rewrite simple_cleanup_from_filter, !simple_cleanup_filter. cbn [t_levels t_T t_all].
+  rewrite !filter_filter_and. apply filter_ext_in'. intros e _.
+  set (F := existsb (fun l => simple_removes (BFile lay) t l e) (t_levels t)).
+  destruct F eqn:EF; unfold F in EF.
+  - (* some level removes e *)
+    apply existsb_exists in EF. destruct EF as [l [Hl Hr]].
+    destruct (In_nth_error _ _ Hl) as [j Hj].
+    unfold simple_removes in Hr. destruct (level_dir lay l) as [d|] eqn:D; [|discriminate].
+    destruct (Nat.lt_ge_cases j k) as [Hlt|Hge].
+    + (* done before the interruption *)
+      assert (existsb (fun l0 => simple_removes (BFile lay)
+                (mkTask (firstn k (t_levels t)) (t_T t) (t_all t) (t_complete t) (t_skip t)) l0 e)
+                (firstn k (t_levels t)) = true) as ->; [| cbn [negb andb]; rewrite ?andb_false_r; reflexivity].
+      apply existsb_exists. exists l. split; [apply (In_firstn_nth _ k j); assumption|].
+      unfold simple_removes. rewrite D. exact Hr.
+    + (* not skipped by the continued run *)
+      assert (existsb (fun l0 => simple_removes_from (BFile lay) t (Some dk) l0 e) (t_levels t) = true) as ->;
+        [| cbn [negb andb]; rewrite ?andb_false_r; reflexivity].
+      apply existsb_exists. exists l. split; [exact Hl|].
+      unfold simple_removes_from. rewrite D. cbn [can_skip]. rewrite (Hord j l d Hge Hj D). exact Hr.
+  - (* no level removes e *)
+    cbn [negb].
+    assert (forall l, In l (t_levels t) -> simple_removes (BFile lay) t l e = false) as Hno.
+    { intros l Hl. destruct (simple_removes (BFile lay) t l e) eqn:R; [|reflexivity].
+      rewrite <- EF. symmetry. apply existsb_exists. exists l; split; assumption. }
+    rewrite (existsb_false _ (firstn k (t_levels t))).
+    2:{ intros l Hl. apply In_firstn_In in Hl. specialize (Hno l Hl). unfold simple_removes in *. exact Hno. }
+    rewrite (existsb_false _ (t_levels t)).
+    2:{ intros l Hl. specialize (Hno l Hl). unfold simple_removes_from, simple_removes in *.
+        destruct (level_dir lay l); [|reflexivity]. rewrite Hno. apply andb_false_r. }
+    cbn [negb andb]. rewrite andb_true_r.
+    assert (dir_removes (BFile lay) dk (t_T t) (t_all t) e = false) as ->; [|apply orb_true_r].
+    specialize (Hno lk (nth_error_In _ _ Hk)). unfold simple_removes in Hno. rewrite Hd in Hno. exact Hno.
+Qed.
+
+(* the order holds when the levels ascend (as the configuration yields them): names that are numbers (tc, mp,
+   tms) are compared as numbers; the names L%02d of arcgis sort like the numbers below 100 *)
+Lemma ascending_order lay (levels : list Z) k lk dk :
+  nth_error levels k = Some lk -> level_dir lay lk = Some dk ->
+  (forall i j li lj, (i <= j)%nat -> nth_error levels i = Some li -> nth_error levels j = Some lj -> li <= lj) ->
+  (lay = LArcgis -> forall l, In l levels -> 0 <= l < 100) ->
+  forall j lj dj, (k <= j)%nat -> nth_error levels j = Some lj -> level_dir lay lj = Some dj ->
+    key_ltb (dname_key dj) (dname_key dk) = false.
+Proof.
+  intros Hk Hd Hasc Hb j lj dj Hj Hnj Hdj.
+  pose proof (Hasc k j lk lj Hj Hk Hnj) as Hle.
+  assert (lay = LArcgis \/ (dname_key dj = (lj, 0) /\ dname_key dk = (lk, 0))) as [Harc|[-> ->]].
+  { destruct lay; cbn in Hd, Hdj; inversion Hd; inversion Hdj; subst; try (right; split; reflexivity); try discriminate.
+    left; reflexivity. }
+  2:{ unfold key_ltb. cbn [fst snd]. rewrite Z.ltb_irrefl, andb_false_r, orb_false_r. apply Z.ltb_ge. exact Hle. }
+  pose proof (Hb Harc lk (nth_error_In _ _ Hk)) as B1. pose proof (Hb Harc lj (nth_error_In _ _ Hnj)) as B2.
+  subst lay. cbn in Hd, Hdj. inversion Hd; inversion Hdj; subst. cbn [dname_key].
+  unfold key_ltb. cbn [fst snd].
+  pose proof (Z.div_mod lj 10 ltac:(lia)). pose proof (Z.div_mod lk 10 ltac:(lia)).
+  pose proof (Z.mod_pos_bound lj 10 ltac:(lia)). pose proof (Z.mod_pos_bound lk 10 ltac:(lia)).
+  destruct (lj / 10 <? lk / 10) eqn:A; [apply Z.ltb_lt in A; lia|].
+  destruct (lj / 10 =? lk / 10) eqn:B; [|reflexivity].
+  apply Z.eqb_eq in B. cbn [orb andb]. apply Z.ltb_ge. lia.
+Qed.
+
+(* resume_covers for ascending levels, every layout with level directories *)
+Lemma resume_covers_ascending_l lay t k keep c lk dk :
+  nth_error (t_levels t) k = Some lk -> level_dir lay lk = Some dk ->
+  (forall i j li lj, (i <= j)%nat -> nth_error (t_levels t) i = Some li -> nth_error (t_levels t) j = Some lj -> li <= lj) ->
+  (lay = LArcgis -> forall l, In l (t_levels t) -> 0 <= l < 100) ->
+  resumed (BFile lay) t k keep c = simple_cleanup (BFile lay) t c.
+Proof.
+  intros Hk Hd Hasc Hb. apply (resume_covers_l lay t k keep c lk dk Hk Hd).
+  apply (ascending_order lay (t_levels t) k lk dk Hk Hd Hasc Hb).
+Qed.
+
+(* tms layout, levels 2 and 10 ("10" would sort before "2" as a string): interrupted in level 2, continued *)
+Example ex_resume_tms :
+  resumed (BFile LTms) (mkTask [2; 10] 160 false true false) 0 (fun _ => true)
+    [mkEntry (PTile 0 2 1 1) 120 false None; mkEntry (PTile 0 10 5 7) 120 false None; mkEntry (PTile 0 10 5 8) 200 false None]
+  = [mkEntry (PTile 0 10 5 8) 200 false None].
+Proof. reflexivity. Qed.
+
+Example ex_resume :
+  resumed (BFile LTc) (mkTask [1; 2] 160 false true false) 1 (fun e => e_mtime e <? 110)
+    [mkEntry (PTile 0 1 0 0) 120 false None; mkEntry (PTile 0 2 1 1) 100 false None; mkEntry (PTile 0 2 1 2) 120 false None;
+     mkEntry (PTile 0 2 1 3) 170 false None]
+  = [mkEntry (PTile 0 2 1 3) 170 false None].
+Proof. reflexivity. Qed.
+
+(* the model never looks at the time of a link target *)
+Lemma link_target_irrelevant_l b q msize t walked e x :
+  removed_by b q msize t walked (mkEntry (e_place e) (e_mtime e) (e_isdir e) x) = removed_by b q msize t walked e.
+Proof. destruct e as [p m d tg]. reflexivity. Qed.
+
+Lemma levels_range_to_zero nlevels : 0 < nlevels -> levels_range None (Some 0) nlevels = [0].
+Proof. intros H. unfold levels_range. replace (Z.min 0 (nlevels - 1)) with 0 by lia. reflexivity. Qed.
